@@ -1519,6 +1519,8 @@ class WriteTool(BaseTool):
 
                 validator = Validator(schema=schema_def)
                 validation_errors = validator.validate(doc, strict=False, section_schemas=section_schemas)
+                # Entries of severity "warning" (e.g. W001 under UNKNOWN_FIELDS::WARN) never block
+                validation_errors = [err for err in validation_errors if err.severity != "warning"]
 
                 # Lenient mode: apply minimal safe repairs for builtin dict schemas (META-only)
                 if lenient and schema_def is not None and validation_errors:
@@ -1560,6 +1562,7 @@ class WriteTool(BaseTool):
                         canonical_content = emit(doc)
                         canonical_metrics = extract_structural_metrics(doc)
                         validation_errors = validator.validate(doc, strict=False, section_schemas=section_schemas)
+                        validation_errors = [err for err in validation_errors if err.severity != "warning"]
 
                 # Lenient mode may apply safe schema repairs (enum casefold, type coercion)
                 if lenient and schema_definition is not None and validation_errors:
@@ -1582,6 +1585,7 @@ class WriteTool(BaseTool):
                         canonical_metrics = extract_structural_metrics(doc)
                         # Revalidate
                         validation_errors = validator.validate(doc, strict=False, section_schemas=section_schemas)
+                        validation_errors = [err for err in validation_errors if err.severity != "warning"]
                     except Exception:
                         # Best-effort: if repair fails, preserve original validation_errors
                         pass
